@@ -17,8 +17,8 @@ type (
 		IsReal bool
 		Rat    *big.Rat
 	}
-	EBool  struct{ V bool }
-	ECall  struct {
+	EBool struct{ V bool }
+	ECall struct {
 		Fn   string
 		Args []Expr
 	}
@@ -137,8 +137,8 @@ func parseExpr(src string) (e Expr, err error) {
 type parseErr string
 
 func (ps *parser) fail(msg string) { panic(parseErr(msg)) }
-func (ps *parser) peek() tok      { return ps.toks[ps.p] }
-func (ps *parser) next() tok      { t := ps.toks[ps.p]; ps.p++; return t }
+func (ps *parser) peek() tok       { return ps.toks[ps.p] }
+func (ps *parser) next() tok       { t := ps.toks[ps.p]; ps.p++; return t }
 func (ps *parser) isOp(s string) bool {
 	t := ps.peek()
 	return t.k == "op" && t.s == s
